@@ -38,6 +38,7 @@ type vfC13Cfg struct {
 	Group  bool // DTLS 1.3: the server refuses the client's first key share (HRR carries selected_group)
 	Base   string
 	Resume bool
+	NoBackoff bool // the server runs with WithDisableRetransmitBackoff(true)
 }
 
 type vfC13Case struct {
@@ -68,6 +69,14 @@ func vfC13Cfgs() []vfC13Cfg {
 			vfC13Cfg{Name: "13client-dualserver", Ver: "13", SVer: "dual", CID: -1, Base: base},
 			vfC13Cfg{Name: "dual-dual", Ver: "dual", SVer: "dual", CID: -1, Base: base},
 		)
+		if base == "" {
+			// retransmission settings must not turn the timer into a source of cookie requests
+			out = append(out,
+				vfC13Cfg{Name: "12-ecdsa-nobackoff", Ver: "12", SVer: "12", CID: -1, Base: base, NoBackoff: true},
+				vfC13Cfg{Name: "13-nobackoff", Ver: "13", SVer: "13", CID: -1, Base: base, NoBackoff: true},
+				vfC13Cfg{Name: "dual-dual-nobackoff", Ver: "dual", SVer: "dual", CID: -1, Base: base, NoBackoff: true},
+			)
+		}
 	}
 
 	return out
@@ -82,6 +91,9 @@ func vfC13Options(c vfC13Cfg) ([]ClientOption, []ServerOption) {
 	cfg := vfBaseCfg(suite, kind)
 	cfg.CVer, cfg.SVer, cfg.CIDc, cfg.CIDs, cfg.HelloVerify = c.Ver, c.SVer, c.CID, c.CID, true
 	co, so := cfg.Options(nil, nil)
+	if c.NoBackoff {
+		so = append(so, WithDisableRetransmitBackoff(true))
+	}
 	// classical groups only: a hybrid key share does not fit one datagram and the script works on
 	// single-fragment hellos
 	if c.Group {
